@@ -10,6 +10,7 @@ import vlib, ksi, netsim
 
 LEVEL = "model_checking"
 R = 10        # requests per scenario
+NCONF = 3     # configuration requests per scenario (tags R+1 .. R+NCONF)
 
 
 class Scenario:
@@ -18,7 +19,7 @@ class Scenario:
         self.events = []
         self.idmap = {}          # real request id -> small id for the trace
         self.req = {}            # r -> dict(id, doc)
-        self.next_r = 1
+        self.next_r = 1; self.next_c = R + 1
         self.peer_open = True
         self.violation = None
 
@@ -54,15 +55,33 @@ class Scenario:
         else:
             self.events.append(dict(e="Add", r=r, rc="ERR%x" % rc, id=0))
 
+    def addconf(self):
+        """a configuration request (tags after the ordinary requests)"""
+        if self.next_c > R + NCONF:
+            return
+        r = self.next_c; self.next_c += 1
+        out = self.s.cmd("ADDCONF %d" % r)
+        rc = int(netsim.kv(out[-1])["rc"], 16)
+        self.events.append(dict(e="Add", r=r, rc={0: "OK", 0x10a: "STATE"}.get(rc, "ERR%x" % rc), id=0))
+
+    def conf_payload(self, v):
+        # aggregator configuration: maximum level = v; extender configuration: maximum requests = v
+        return ksi.tlv(0x04, ksi.tlv(0x04, ksi.uint(v)) if self.svc == "extend" else ksi.tlv(0x01, ksi.uint(v)))
+
     def run(self):
         was_open = self.s.conn_open; cno = self.s.conn_no
         out = self.s.cmd("RUN")
         line = [l for l in out if l.startswith("R run")][-1]
         f = netsim.kv(line)
-        ev = dict(e="Run", h=0, hstate="-", hcause=["-", 0], hsig=False, waiting=int(f["waiting"]), pending=int(f["pending"]),
+        ev = dict(e="Run", h=0, hstate="-", hcause=["-", 0], hsig=False, hcfg=0, waiting=int(f["waiting"]), pending=int(f["pending"]),
                   received=int(f["received"]), rc=int(f["rc"], 16))
         if f["h"] != "-":
             r = int(f["h"]); stt = netsim.STATE.get(int(f["state"]), "st%s" % f["state"])
+            if stt == "conf":        # a configuration: the answer to a configuration request (h = its tag) or a push (no tag)
+                v = f.get("maxreq" if self.svc == "extend" else "maxlevel", "-")
+                ev["hcfg"] = int(v) if v != "-" else -1
+                if r < 0:
+                    r, stt = -1, "push"
             ev["h"] = r; ev["hstate"] = stt
             if stt == "err":
                 ev["hcause"] = netsim.cause_of(int(f["err"], 16), int(f["ext"]))
@@ -70,12 +89,12 @@ class Scenario:
                 ev["hsig"] = (f.get("sig") == "0" and f.get("sighash") == self.req[r]["doc"].hex())
                 ev["sigrc"] = f.get("sig")
         st = self.s.cmd("STATES")[-1].split()[2:]
-        ev["states"] = [[int(x.split(":")[0]), netsim.STATE.get(int(x.split(":")[1]), "?")] for x in st]
+        ev["states"] = [[int(x.split(":")[0]), {"conf": "resp"}.get(netsim.STATE.get(int(x.split(":")[1]), "?"), netsim.STATE.get(int(x.split(":")[1]), "?"))] for x in st]
         self.events.append(ev)
         if self.s.conn_no != cno or (was_open and not self.s.conn_open):
             self.peer_open = True     # a new connection starts with an open peer
 
-    def resp_pdu(self, real, r, doc, status=0):
+    def resp_pdu(self, real, r, doc, status=0, conf=0):
         """one authentic response PDU of this service for request id `real` (r = the request it is modelled on, may be 0)"""
         rng = self.rng
         if self.svc == "extend":
@@ -86,10 +105,11 @@ class Scenario:
             else:
                 links = [(l, ksi.fake_imprint(1, rng.randbytes(8))) for l in reversed(ksi.cal_shape(pub, q["aggr"]))]
                 body = ksi.tlv(0x01, ksi.uint(real)) + ksi.tlv(0x04, b"") + ksi.tlv(0x12, ksi.uint(pub + 9)) + ksi.cal_chain_tlv(pub, q["aggr"], doc, links)
-            return ksi.pdu_v2(0x0321, b"anon", b"anon", [ksi.tlv(0x02, body)])
+            return ksi.pdu_v2(0x0321, b"anon", b"anon", [ksi.tlv(0x02, body)] + ([self.conf_payload(conf)] if conf else []))
+        extra = [self.conf_payload(conf)] if conf else []
         if status:
-            return ksi.pdu_v2(0x0221, b"anon", b"anon", [ksi.aggr_response_payload_v2(real, status=status, errmsg=b"invalid request")])
-        return ksi.pdu_v2(0x0221, b"anon", b"anon", [ksi.aggr_response_payload_v2(real, sig=ksi.build_sig(rng, doc, anchor="auth", links_per_chain=(1, 2)))])
+            return ksi.pdu_v2(0x0221, b"anon", b"anon", [ksi.aggr_response_payload_v2(real, status=status, errmsg=b"invalid request")] + extra)
+        return ksi.pdu_v2(0x0221, b"anon", b"anon", [ksi.aggr_response_payload_v2(real, sig=ksi.build_sig(rng, doc, anchor="auth", links_per_chain=(1, 2)))] + extra)
 
     def server(self):
         if not self.s.conn_open or not self.peer_open:
@@ -103,8 +123,12 @@ class Scenario:
         """one PDU the server may write: (bytes, its abstraction for AsyncService.tla, kind); about = the request it is preferably about"""
         rng = self.rng
         TAG = 0x0321 if self.svc == "extend" else 0x0221
-        kind = rng.choices(["valid", "valid", "valid", "wronghash", "status", "errpdu", "badmac", "garbage", "unknown", "stale"],
-                           weights=[6, 6, 6, 2, 2, 1, 1, 1, 1, 2])[0]
+        kind = rng.choices(["valid", "valid", "valid", "wronghash", "status", "errpdu", "badmac", "garbage", "unknown", "stale", "conf"],
+                           weights=[6, 6, 6, 2, 2, 1, 1, 1, 1, 2, 2.5])[0]
+        if kind == "conf":          # a PDU that carries only a configuration: the answer to a configuration request, or a push
+            v = rng.randrange(1, 200)
+            return ksi.pdu_v2(TAG, b"anon", b"anon", [self.conf_payload(v)]), dict(k="conf", conf=v), kind
+        conf = rng.randrange(1, 200) if rng.random() < 0.08 else 0       # a response that also carries a configuration
         known = list(self.req)
         if kind in ("valid", "wronghash", "status") and not known:
             kind = "unknown"
@@ -117,20 +141,20 @@ class Scenario:
                 real = real ^ (rng.choice([1, 2, 3]) << 32)      # same cache slot, another id generation
             doc = self.req[r]["doc"] if kind != "wronghash" else ksi.imprint(1, b"other")
             if kind == "status":
-                raw = self.resp_pdu(real, r, doc, status=0x101)
-                m = dict(k="resp", id=self.small(real), status=0x101, hashok=False, fits=True)
+                raw = self.resp_pdu(real, r, doc, status=0x101, conf=conf)
+                m = dict(k="resp", id=self.small(real), status=0x101, hashok=False, fits=True, conf=conf)
             else:
-                raw = self.resp_pdu(real, r, doc)
+                raw = self.resp_pdu(real, r, doc, conf=conf)
                 owner = [q for q in self.req if self.req[q]["id"] == real]      # a flipped generation may be another request's id
                 fits = True
                 if self.svc == "extend":        # the extending service checks the reply's times against the request that owns the id; times are unique per
                     # request, so a reply whose id has no owner yet (a later request may get exactly this id) will not fit that later owner either
                     fits = bool(owner) and (self.req[owner[0]]["aggr"], self.req[owner[0]]["pub"]) == (self.req[r]["aggr"], self.req[r]["pub"])
-                m = dict(k="resp", id=self.small(real), status=0, hashok=bool(owner) and self.req[owner[0]]["doc"] == doc, fits=fits)
+                m = dict(k="resp", id=self.small(real), status=0, hashok=bool(owner) and self.req[owner[0]]["doc"] == doc, fits=fits, conf=conf)
         elif kind == "unknown":
             real = 0x7fff0000 + rng.randrange(100)
-            raw = self.resp_pdu(real, 0, ksi.imprint(1, b"x"))
-            m = dict(k="resp", id=self.small(real), status=0, hashok=False, fits=True)
+            raw = self.resp_pdu(real, 0, ksi.imprint(1, b"x"), conf=conf)
+            m = dict(k="resp", id=self.small(real), status=0, hashok=False, fits=True, conf=conf)
         elif kind == "errpdu":
             raw = ksi.pdu_v2(TAG, b"anon", b"anon", [ksi.error_payload_v2(0x102, b"auth")])
             m = dict(k="errpdu", status=0x102)
@@ -148,8 +172,10 @@ class Scenario:
 
     def step(self):
         rng = self.rng
-        a = rng.choices(["add", "run", "srv", "peer", "tick", "poll", "open"], weights=[5, 8, 6, 0.5, 2, 1, 0.5])[0]
-        if a == "add":
+        a = rng.choices(["add", "run", "srv", "peer", "tick", "poll", "open", "addconf"], weights=[5, 8, 6, 0.5, 2, 1, 0.5, 0.8])[0]
+        if a == "addconf":
+            self.addconf()
+        elif a == "add":
             if self.next_r <= R:
                 self.add()
         elif a == "run":
@@ -276,13 +302,14 @@ class HttpScenario(Scenario):
 
 def tlc_cfg(path, spec, o, invariants=(), extra=""):
     with open(path, "w") as f:
-        f.write("SPECIFICATION %s\nCONSTANTS\n  Reqs = {%s}\n  N = %d\n  SndTo = %d\n  RcvTo = %d\n  ConTo = %d\n  MaxReq = %d\n  Http = %s\n%s" %
-                (spec, ", ".join(str(i) for i in range(1, o.get("R", R) + 1)), o["N"], o["SndTo"], o["RcvTo"], o["ConTo"], o["MaxReq"], "TRUE" if o.get("Http") else "FALSE", extra))
+        nr = o.get("R", R); nc = o.get("C", NCONF if "R" not in o else 0)        # configuration requests are the tags after the ordinary ones
+        f.write("SPECIFICATION %s\nCONSTANTS\n  Reqs = {%s}\n  ConfReqs = {%s}\n  N = %d\n  SndTo = %d\n  RcvTo = %d\n  ConTo = %d\n  MaxReq = %d\n  Http = %s\n%s" %
+                (spec, ", ".join(str(i) for i in range(1, nr + nc + 1)), ", ".join(str(i) for i in range(nr + 1, nr + nc + 1)), o["N"], o["SndTo"], o["RcvTo"], o["ConTo"], o["MaxReq"], "TRUE" if o.get("Http") else "FALSE", extra))
         if invariants:
             f.write("INVARIANTS\n" + "".join("  %s\n" % i for i in invariants))
 
 
-INVS = ["TypeOK", "ExactlyOnce", "ResponseOnlyIfValidReply", "CountsAgree", "RefusedOnlyWhenFull", "IdsDistinct", "CauseIsReal"]
+INVS = ["TypeOK", "ExactlyOnce", "ResponseOnlyIfValidReply", "CountsAgree", "RefusedOnlyWhenFull", "IdsDistinct", "CauseIsReal", "ConfOnlyIfConfArrived", "OneSlot"]
 
 
 def model_check(chk, name, o, bounds, timeout):
@@ -439,6 +466,10 @@ def run(chk, tier, seed):
     # 1. exhaustive model checking (small caches)
     model_check(chk, "n1r2", dict(N=1, SndTo=1, RcvTo=1, ConTo=1, MaxReq=1, R=2), (1, 2, 2) if tier == "quick" else (2, 2, 2), 1500)
     model_check(chk, "http_n1r2", dict(N=1, SndTo=1, RcvTo=1, ConTo=1, MaxReq=1, R=2, Http=True), (2, 2, 2), 900)
+    # the configuration slot: one ordinary request and two configuration requests, configuration PDUs among the server's messages
+    model_check(chk, "conf_n1c2", dict(N=1, SndTo=1, RcvTo=1, ConTo=1, MaxReq=2, R=0, C=2), (1, 2, 2), 900)
+    if tier == "thorough":
+        model_check(chk, "conf_n1r1c2", dict(N=1, SndTo=1, RcvTo=1, ConTo=1, MaxReq=2, R=1, C=2), (1, 2, 2), 2400)
     liveness(chk, False); liveness(chk, True)
     if tier == "thorough":
         model_check(chk, "n2r2", dict(N=2, SndTo=1, RcvTo=1, ConTo=0, MaxReq=2, R=2), (2, 2, 3), 1800)
